@@ -2,7 +2,7 @@
    Property theorems only; each is closed by a lemma of Proofs/C09*.v.
    The model (Model/C09Model.v) is parametric in the variant of the code; [fixedv] is the
    repository with the four "fix:" commits of branch agent-c09, [origv] the unchanged tree. *)
-From GP Require Import Base C09Model C09Spec C09Seq C09Proofs C09Stream C09Flush C09Keep C09Send C09Full C09Cover.
+From GP Require Import Base C09Model C09Spec C09Seq C09Proofs C09Stream C09Flush C09Keep C09Send C09Cover C09NoNew C09Full C09Bridge.
 Open Scope Z_scope.
 
 (* ------------------------------------------------------------------ (i) C09_seq *)
@@ -181,12 +181,13 @@ Qed.
    number of bytes that never arrived and occurs only on a flush or a page limit, kept bytes are
    presented again unchanged directly in front of the next new data, FlushAll delivers
    everything received and completes every stream, no panic.
-   NOT PROVED as a whole.  It is evaluated by the correspondence run on every generated case
-   (observation spec=ok), and the parts proved are below. *)
+   PROVED at the end of this file (Theorem C09_stream) for the code as it stands ([fullv], the six
+   repairs).  It is also evaluated by the correspondence run on every generated case (observation
+   spec=ok). *)
 Definition C09_stream_statement : Prop :=
   forall (S : list Z) (i : Z) (hs : list hop),
     0 <= i < 4294967296 -> zlen S < HALFW - 1 -> forallb (hop_okb S) hs = true ->
-    hist_okb fixedv S i hs = true.
+    hist_okb fullv S i hs = true.
 
 (* the statement is violated by the code of the unchanged tree, four ways; the repaired code
    passes the same histories *)
@@ -348,9 +349,9 @@ Proof. vm_compute. repeat split; reflexivity. Qed.
      stream whose start was never seen).
    - after FlushAll no stream is left (every stream that existed got its ReassemblyComplete: the flush
      loop runs until the data half is closed, its fuel exceeds the queue length).
-   Missing for C09_stream_statement: that FlushWithOptions never closes the data half without
-   completing the stream (gclosed, the silent close, is still allowed by gtrace for it), and the step from this Prop to the
-   boolean trace_okb. *)
+   - a flush never closes the data half without completing the stream; StreamFactory.New is the first
+     event of an operation, and only a segment that finds no connection produces it.
+   C09_stream below derives the executable statement from this reading. *)
 Theorem C09_stream_events : forall S i hs,
   zlen S < 1073741823 -> forallb (hop_okb S) hs = true ->
   gtrace S (mkCfg 0 0 []) GDead [] 0 hs (run_hist fullv S i hs).
@@ -416,3 +417,30 @@ Theorem C09_skip_holds_nothing : forall S i q lo hi x,
   zlen S < 1073741823 -> qok S i lo hi q -> covl S i q x -> lo <= x.
 Proof. exact qok_cov_ge. Qed.
 Print Assumptions C09_skip_holds_nothing.
+
+(* ------------------------------------------------------------------ C09_stream: the full statement *)
+
+(* The stream statement in full (Definition C09_stream_statement above, the executable predicate
+   trace_okb of Model/C09Spec.v): for every sender stream shorter than 2^30 - 1, every initial
+   sequence number, every history of consistent operations, the run of the code as it stands is
+   accepted by the oracle: no panic; every delivered byte at absolute offset a equals S[a], nothing
+   twice; a skip is -1 only for the first delivery of a stream whose start was never seen (which then
+   begins at the least received offset) and otherwise the exact number of bytes that never arrived,
+   released only by a flush or a page limit; kept bytes are presented again unchanged directly in
+   front of the next new data; New / ReassembledSG / Complete are consistent per stream; after FlushAll
+   no stream is left and every stream that was not ended by FIN/RST got everything it had received.
+   Proof: C09_stream_events (the machine invariant) and a simulation of the oracle state by the
+   abstract state (Proofs/C09Bridge.v). *)
+Theorem C09_stream : C09_stream_statement.
+Proof. intros S i hs _ HS Hok. apply stream_okb; assumption. Qed.
+Print Assumptions C09_stream.
+
+(* non-vacuity: the history of C09_stream_events_nonvacuous (KeepFrom, data before the SYN, a closing
+   flush, a re-opened connection, across the wrap) meets the hypotheses; the oracle accepts its run on
+   the code as it stands and rejects the run of the unchanged code *)
+Example C09_stream_nonvacuous :
+  let hs := [HKeep [(1, 1)]; HData 4 2 false false 2; HData 2 2 false false 3; HSyn 2 4; HData 6 2 false false 5;
+             HFlush 100 100; HData 8 2 true false 200; HFlushAll] in
+  zlen w_S < HALFW - 1 /\ forallb (hop_okb w_S) hs = true /\
+  hist_okb fullv w_S 4294967293 hs = true /\ hist_okb origv w_S 4294967293 hs = false.
+Proof. vm_compute. repeat split; reflexivity. Qed.
